@@ -14,6 +14,9 @@ LEAN_TARGETS = ["BeyondVerif.Props.C07", "BeyondVerif.Props.C07Native"]
 THEOREMS = [
     "BeyondVerif.C07.wrapper_eq_reference",
     "BeyondVerif.C07.wrapper_timedelta",
+    "BeyondVerif.C07.wrapper_instant_eq_reference",
+    "BeyondVerif.C07.elapsed_route_eq_iff",
+    "BeyondVerif.C07.elapsed_route_error",
     "BeyondVerif.C07.fields_valid",
     "BeyondVerif.C07.fields_denote_instant",
     "BeyondVerif.C07.fields_jday",
@@ -54,7 +57,10 @@ THEOREMS = [
 LEVEL_TEXT = ("Lean theorems: (1) default propagator with the sgp4 package as a parameter: for every library, TLE text and date the wrapper returns 1000 x the "
               "library's result on the original lines and the UTC calendar tuple of the instant (given C12's parse/write identity as hypothesis); the tuple "
               "(CPython's ord2ymd, modelled branch for branch) is a valid civil date that denotes the instant exactly for every date from year 1, and the "
-              "library's own Julian-day formula reads it back correctly for 1901-2099; exact correspondence of the arguments really handed to the library; "
+              "library's own Julian-day formula reads it back correctly for 1901-2099; with the date as an instant (TAI clock, TAI-UTC of its own day) the tuple is the UTC reading of that instant "
+              "whatever the epoch (wrapper_instant_eq_reference), and 'epoch's UTC datetime + elapsed time' is that reading iff TAI-UTC is the same at epoch and date (elapsed_route_eq_iff: "
+              "across an inserted second it is off by exactly the inserted seconds); exact correspondence of the arguments really handed to the library, under three Earth-orientation "
+              "environments (leap-second table, constant, none); "
               "the binding logic (orbit setter, _state, _bound_to) as a state machine over a MUTABLE orbit: after any history of in-place edits and propagations the reply is "
               "that of a fresh propagator on the values the orbit holds now (history_reply_eq_fresh), the statements of Sgp4 being read from the AST (any other shape or member "
               "is refused) and 'every input Tle.from_orbit reads is a label or is covered by the key _state compares' decided on sets regenerated from sgp4.py and tle.py. "
@@ -92,7 +98,13 @@ TRUSTED = [
 ASSUMPTIONS = [
     "wrapper_eq_reference takes 'regenerating the TLE text of the parsed orbit reproduces the original lines' (C12 parse_write_id) as a hypothesis; the correspondence counts how often it held (lines=identical/differ) and the oracle compares states in any case",
     "a date enters the wrapper model as the integer microsecond count of date.change_scale('UTC').datetime; that two labels of one instant give counts within 1 us is C04/C03's (oracle here: label independence within |v| x 50 us)",
-    "Earth-orientation data in the harness process: constant TAI-UTC = 37 s, UT1-UTC = -0.1234567 s (so that labels differ); no leap-second boundary is crossed",
+    "Earth-orientation data in the harness process, three environments: `leap` (default; TAI-UTC = the leap-second table 1972-2017 written in the harness and compared with the repository's "
+    "tests/data/pole/tai-utc.dat, UT1-UTC = -0.1234567 s), `const` (TAI-UTC = 37 s everywhere), `zero` (the repository's default without a database); epochs are drawn next to inserted seconds "
+    "(eve, day after, +-20 d) and requests on the other side of them; within 2 minutes of an inserted second requests are made with UTC dates only (clock readings of other scales are ambiguous "
+    "there: the library's documented limitation, property C03 — e.g. the UT1 label of exactly 00:00:00 UTC of such a day carries the old TAI-UTC)",
+    "the native model's time since epoch is the elapsed time between the instants (`date - self.tle.date`, commit c0975d9); the reference is evaluated at that same time since epoch "
+    "(harness: calendar difference + inserted seconds from its own table). The reference LIBRARY's calendar route ignores inserted seconds, so across one the default propagator and the native one "
+    "are one second of motion apart by construction; the property's 'same state as the reference' for the native model is read at equal time since epoch",
     "theorems about the native model are over R; the implementation computes in IEEE doubles",
     "fields_jday is exact integer arithmetic; the library evaluates its formula in doubles (resolution 40 us at JD 2.45e6: the property's |v| x 50 us)",
     "hypotheses of the native = reference theorems: e0^2 < 1, eta^2 < 1 (eta = a0 e0/(a0 - s); true whenever the perigee is above s = 78 km .. 20 km), a0 != 0, a > 0, mu != 0, 1 - e cos E != 0, "
@@ -117,7 +129,9 @@ OPEN = [
     "Hinnant days_from_civil as a third independent reading of the tuple was planned and not done (ymd2ord and the library's jday are proved)",
     "a composed theorem 'sgp4Prop = 1000 x refSgp4 whenever both Kepler loops return the same eccentric longitude' was not written (all pieces are proved)",
 ]
-RULE = ("correspondence: (a) 700/20000 edge datetimes 1957-2056 x 5 labels through the real Sgp4 with a stub library, (b) 300/8000 generated catalogue-like TLEs (all inclinations, e<=0.9, "
+RULE = ("all streams run under the leap-second Earth-orientation environment (oracle: leap / const / zero drawn 3:1:1 per case, pinned corpus under all three; replays carry `eop`). "
+        "correspondence: (a) 700/20000 edge datetimes 1957-2056 x 5 labels through the real Sgp4 with a stub library (epoch 2017-04-10: every date before 2017 is across inserted seconds; "
+        "model asked as `sgp4utc <TAI clock> <TAI-UTC of the day from the harness's table>`), (b) 300/8000 generated catalogue-like TLEs (all inclinations, e<=0.9, "
         "0.5-16.5 rev/day, |B*|<=1e-2, epochs 1973-2017, +-30 d, date or timedelta argument) through the real Sgp4 with the installed sgp4 package: arguments handed to twoline2rv / "
         "satrec.propagate intercepted and compared exactly with the model tuple, result compared bit for bit with 1000 x library(model tuple); (c) 3/24 rounds of the directed generator "
         "(one TLE per FEATURE: every guard of sgp4beta.py and of the reference's sgp4init from both sides at field resolution, every exact field boundary) + 500/12000 catalogue-like TLEs x 2 dates: "
@@ -475,6 +489,8 @@ def gen_tle(rng):
     day = round(rng.uniform(1, ndays + 0.999), 8)
     if rng.random() < 0.05:
         day = float(rng.randint(1, ndays))
+    if rng.random() < 0.12:
+        year, day = near_leap_epoch(rng)          # +-30 d requests then lie on either side of an inserted second
     mag = rng.choice([0, 1e-6, 1e-5, 1e-4, 1e-4, 1e-3, 1e-2])
     bstar = rng.uniform(-0.1, 1.0) * mag
     if abs(bstar) >= 1e-2:
@@ -671,6 +687,15 @@ def _year_end(p, rng, side):
     return True
 
 
+def _leap_epoch(p, rng, delta_days):
+    if delta_days is None:
+        p["year"], p["day"] = near_leap_epoch(rng)
+    else:
+        e = rng.choice(LEAP_INSTANTS) + _dt.timedelta(days=delta_days)
+        p["year"], p["day"] = e.year, round(1 + (e - _dt.datetime(e.year, 1, 1)) / _dt.timedelta(days=1), 8)
+    return True
+
+
 # (name, setter(p, rng, side) -> bool, base regimes cycled over).  `side` in {0, 1}: below / above a threshold, or two variants.
 FEATURES = [
     ("inc=0.0000", _set(inc=0.0), None), ("inc=0.0001", _set(inc=0.0001), None), ("inc=180.0000", _set(inc=180.0), None),
@@ -696,6 +721,10 @@ FEATURES = [
     ("epoch-leap-day-366", _leap_day366, None), ("epoch-year-end-365", _year_end, None),
     ("epoch-year=2000", _set(year=2000), None), ("epoch-year=1999", _set(year=1999), None), ("epoch-year=1973", _set(year=1973), None),
     ("epoch-year=2017", _set(year=2017), None),
+    # the epoch next to an inserted second (TAI-UTC steps there in an Earth-orientation database that knows the leap seconds): requests on the other side of it
+    ("epoch-eve-of-leap-second", lambda p, rng, side: _leap_epoch(p, rng, [-0.5, -0.00000001][side]), None),
+    ("epoch-day-after-leap-second", lambda p, rng, side: _leap_epoch(p, rng, [0.0, 0.5][side]), None),
+    ("epoch-within-20d-of-leap-second", lambda p, rng, side: _leap_epoch(p, rng, None), None),
     # the two-digit year field: 57 is the first year of the 19xx range, 68 | 69 the POSIX pivot, 56 the last year of the 20xx range
     ("epoch-year=1957(yy=57)", _set(year=1957, day=277.8), None), ("epoch-year=1958(yy=58)", _set(year=1958), None), ("epoch-year=1968(yy=68)", _set(year=1968), None),
     ("epoch-year=1969(yy=69)", _set(year=1969), None), ("epoch-year=2056(yy=56)", _set(year=2056), None), ("epoch-year=1964(yy=64)", _set(year=1964), None), ("epoch-feb29", lambda p, rng, side: p.update(year=[1996, 2016][side], day=[60.0, 60.5][side]) or True, None),
@@ -746,6 +775,8 @@ def gen_directed_offsets(rng, info=None):
     if info is not None and info.get("feature", "").startswith("decayed"):
         a = -rng.randint(12 * day, 30 * day)
     b = rng.randint(1 * day, 30 * day) if rng.random() < 0.85 else rng.choice([30 * day, 1, 0])
+    if info is not None and "leap-second" in info.get("feature", "") and "epoch" in info:
+        return leap_crossing_offsets(rng, info["epoch"])
     return [a, b]
 
 
@@ -861,15 +892,106 @@ def reference_branches(sat):
     return b
 
 
+# TAI-UTC in whole seconds from 00:00:00 UTC of the day it takes effect (IERS Bulletin C; written here, not read through the library —
+# `leap_table_vs_file` compares it with the repository's tests/data/pole/tai-utc.dat).  Before 1972 (rubber seconds): constant 10 s.
+LEAP_TABLE = [(1972, 1, 1, 10), (1972, 7, 1, 11), (1973, 1, 1, 12), (1974, 1, 1, 13), (1975, 1, 1, 14), (1976, 1, 1, 15), (1977, 1, 1, 16), (1978, 1, 1, 17),
+              (1979, 1, 1, 18), (1980, 1, 1, 19), (1981, 7, 1, 20), (1982, 7, 1, 21), (1983, 7, 1, 22), (1985, 7, 1, 23), (1988, 1, 1, 24), (1990, 1, 1, 25),
+              (1991, 1, 1, 26), (1992, 7, 1, 27), (1993, 7, 1, 28), (1994, 7, 1, 29), (1996, 1, 1, 30), (1997, 7, 1, 31), (1999, 1, 1, 32), (2006, 1, 1, 33),
+              (2009, 1, 1, 34), (2012, 7, 1, 35), (2015, 7, 1, 36), (2017, 1, 1, 37)]
+MJD0 = _dt.date(1858, 11, 17)
+LEAP_MJD = [((_dt.date(y, m, d) - MJD0).days, v) for y, m, d, v in LEAP_TABLE]
+LEAP_INSTANTS = [_dt.datetime(y, m, d) for y, m, d, _v in LEAP_TABLE[1:]]        # 00:00:00 UTC right after each inserted second
+EOP_MODES = ["leap", "const", "zero"]
+_eop_mode = ["zero"]
+
+
+def tai_utc_s(mjd_day, mode=None):
+    """TAI-UTC (whole seconds) on the UTC day `mjd_day` in the harness's Earth-orientation environment `mode`"""
+    mode = mode or _eop_mode[0]
+    if mode == "const":
+        return 37
+    if mode == "zero":
+        return 0
+    v = 10
+    for day, val in LEAP_MJD:
+        if mjd_day >= day:
+            v = val
+    return v
+
+
+def tai_utc_of(dt, mode=None):
+    """TAI-UTC (s) at the naive UTC datetime `dt`"""
+    return tai_utc_s((dt.date() - MJD0).days, mode)
+
+
+def elapsed_us(a, b, mode=None):
+    """elapsed time (microseconds of TAI) from the naive UTC datetime a to the naive UTC datetime b: calendar difference + inserted seconds"""
+    return (b - a) // US + (tai_utc_of(b, mode) - tai_utc_of(a, mode)) * 1_000_000
+
+
+def leap_table_vs_file():
+    """the harness's table against the repository's tests/data/pole/tai-utc.dat (entries from 1972 on), 'identical' | description"""
+    months = {"JAN": 1, "JUL": 7}
+    try:
+        rows = []
+        for line in open(os.path.join(core.REPO, "tests", "data", "pole", "tai-utc.dat"), encoding="ascii"):
+            f = line.split()
+            if f and int(f[0]) >= 1972:
+                rows.append((int(f[0]), months[f[1]], int(f[2]), int(float(f[6]))))
+        return "identical" if rows == LEAP_TABLE else f"differs:{[r for r in rows if r not in LEAP_TABLE][:2]}"
+    except Exception as e:     # noqa
+        return "unreadable:" + type(e).__name__
+
+
 @contextlib.contextmanager
-def eop(tai_utc=37.0, ut1_utc=-0.1234567):
-    """constant Earth-orientation record for every date (harness process only): TAI-UTC = 37 s so that the UTC/TAI/TT/GPS
-    labels of one instant really carry different clock fields (the repository default without a database is 0 s)"""
+def eop(mode="leap", ut1_utc=-0.1234567):
+    """Earth-orientation environment of the harness process, one of EOP_MODES:
+    `leap`  — TAI-UTC follows the leap-second table (a date before and a date after an inserted second carry different TAI-UTC),
+    `const` — one record for every date, TAI-UTC = 37 s,
+    `zero`  — the repository's default without a database (TAI-UTC = UT1-UTC = 0).
+    In `leap` and `const` UT1-UTC = -0.1234567 s so that the UTC/TAI/TT/GPS/UT1 labels of one instant all carry different clock fields."""
     from unittest.mock import patch
     from beyond.dates.eop import Eop
-    with patch("beyond.dates.date.EopDb.get") as m:
-        m.return_value = Eop(x=0.0, y=0.0, dx=0.0, dy=0.0, deps=0.0, dpsi=0.0, lod=0.0, ut1_utc=ut1_utc, tai_utc=tai_utc)
-        yield
+
+    def rec(mjd, dbname=None):
+        return Eop(x=0.0, y=0.0, dx=0.0, dy=0.0, deps=0.0, dpsi=0.0, lod=0.0, ut1_utc=0.0 if mode == "zero" else ut1_utc, tai_utc=float(tai_utc_s(int(math.floor(mjd)), mode)))
+    prev = _eop_mode[0]
+    _eop_mode[0] = mode
+    try:
+        with patch("beyond.dates.date.EopDb.get", side_effect=rec):
+            yield
+    finally:
+        _eop_mode[0] = prev
+
+
+def near_leap_epoch(rng, spread_days=20.0):
+    """(year, day-of-year field) of an epoch next to an inserted second of 1972-2017: on its eve (down to the last field step before midnight),
+    on the day after (from 00:00:00 exactly), or within `spread_days` on either side"""
+    L = rng.choice(LEAP_INSTANTS)
+    r = rng.random()
+    if r < 0.2:
+        delta = -rng.choice([0.00000001, 0.00001, 0.001, 0.25, 0.5, 0.99999999])      # days before midnight
+    elif r < 0.35:
+        delta = rng.choice([0.0, 0.00000001, 0.001, 0.5])
+    elif r < 0.75:
+        delta = -rng.uniform(0.0, spread_days)
+    else:
+        delta = rng.uniform(0.0, spread_days)
+    e = L + _dt.timedelta(days=delta)
+    day = round(1 + (e - _dt.datetime(e.year, 1, 1)) / _dt.timedelta(days=1), 8)
+    return e.year, day
+
+
+def leap_crossing_offsets(rng, epoch):
+    """two offsets (microseconds) from `epoch` (naive UTC datetime) around the inserted second nearest to it: one date just / well AFTER it, one
+    just / well BEFORE it — whichever side the epoch is on, one of the two requests is on the other side"""
+    L = min(LEAP_INSTANTS, key=lambda x: abs(x - epoch))
+    base = (L - epoch) // US
+    day = 86_400_000_000
+    after = base + rng.choice([0, 1, 1_000_000, 1_800_000_000, rng.randint(0, 10 * day)])
+    before = base - rng.choice([1, 1_000_000, 120_000_000, rng.randint(1, 10 * day)])
+    lim = 30 * day
+    return [max(-lim, min(lim, before)), max(-lim, min(lim, after))]
 
 
 def fields_of(dt):
@@ -972,12 +1094,18 @@ def tol_pos(speed):
     return speed * 50e-6 + 1e-6
 
 
-def check_tle(out, rng, l1, l2, info, offsets):
-    """all clauses of the property on one TLE and a few dates; `offsets` = list of (offset_us, label, other_label)"""
+def check_tle(out, rng, l1, l2, info, offsets, env=None):
+    """all clauses of the property on one TLE and a few dates; `offsets` = list of (offset_us, label, other_label); `env` = Earth-orientation
+    environment (EOP_MODES) the whole case runs in (None: the ambient one)"""
+    with eop(env or _eop_mode[0]):
+        _check_tle(out, rng, l1, l2, info, offsets)
+
+
+def _check_tle(out, rng, l1, l2, info, offsets):
     from beyond.io.tle import Tle
     from beyond.dates import Date, timedelta
     from beyond.propagators.sgp4beta import Sgp4Beta
-    inp0 = {"line1": l1, "line2": l2}
+    inp0 = {"line1": l1, "line2": l2, "eop": _eop_mode[0]}
     name = info.get("name")
     if name:
         inp0["name"] = name
@@ -1016,12 +1144,19 @@ def check_tle(out, rng, l1, l2, info, offsets):
     for off, label, olabel in offsets:
         target = info["epoch"] + off * US          # naive UTC datetime, integer microseconds
         date = Date(target, scale="UTC")
+        # within two minutes of an inserted second a clock reading in another scale is ambiguous (the library's documented limitation, property C03's
+        # subject: e.g. the UT1 label of exactly 00:00:00 UTC of the day carries the old TAI-UTC): there the request is made with UTC dates only
+        window = _eop_mode[0] == "leap" and any(abs((target - L).total_seconds()) <= 120 for L in LEAP_INSTANTS)
+        if window:
+            label = olabel = "UTC"
+            out.tally("leap-second-window=request-made-with-UTC-dates-only")
         if label != "UTC":
             date = date.change_scale(label)
         inp = dict(inp0, utc=target.isoformat(), label=label, offset_us=off)
         exp = ref_state(sat, target)
-        out.count(key=(l1, l2, off, label), nontrivial=off != 0, kind="wrapper", model=model, label=label, sign="before" if off < 0 else "after",
-                  ref="error" if exp is None else "ok")
+        crossed = tai_utc_of(target) - tai_utc_of(info["epoch"])       # inserted seconds between the epoch and the request (0 unless the environment knows them)
+        out.count(key=(l1, l2, off, label, _eop_mode[0]), nontrivial=off != 0, kind="wrapper", model=model, label=label, sign="before" if off < 0 else "after",
+                  ref="error" if exp is None else "ok", eop=_eop_mode[0], leap_seconds_between_epoch_and_date="0" if crossed == 0 else "+" if crossed > 0 else "-")
         if exp is None:
             continue
         # 1. the default propagator equals the reference on the original lines at that instant
@@ -1070,7 +1205,7 @@ def check_tle(out, rng, l1, l2, info, offsets):
                 out.fail(family_of(info, off, f"wrapper-relative({how}):yy-{yyc}"), f"{how}: the state at (orbit date + offset) is not the reference's at (epoch of the text + offset)",
                          inp, observed=got3, expected=exp, dpos_m=dp)
         # 3. label independence of the wrapper
-        other = date.change_scale(olabel)
+        other = date.change_scale(olabel) if olabel != label else Date(target.year, target.month, target.day, target.hour, target.minute, target.second, target.microsecond)
         goto = [float(x) for x in orb.propagate(other)]
         dp, dv = dist(goto, got)
         out.count(key=(l1, off, "label", olabel), nontrivial=True, kind="wrapper-label", pair=f"{label}->{olabel}")
@@ -1092,7 +1227,9 @@ def check_tle(out, rng, l1, l2, info, offsets):
                 out.fail(family_of(info, off, "native-raises-" + type(e).__name__), "native SGP4 raises inside its domain", inp, observed=repr(e))
             continue
         # the reference theory at the same time since epoch (the calendar route of the library quantises time to 40 microseconds)
-        tmin = ((target - T0) // US - eus) / 60e6
+        #    the native model's time since epoch is the elapsed time between the two instants (`date - self.tle.date`): the harness's own
+        #    calendar difference + the seconds inserted in between (tai_utc_of: the table, not the library)
+        tmin = ((target - T0) // US - eus + crossed * 1_000_000) / 60e6
         expn = ref_state_tsince(sat, tmin)
         tempa = 1 - sat.cc1 * tmin - sat.d2 * tmin ** 2 - sat.d3 * tmin ** 3 - sat.d4 * tmin ** 4 if full else 1.0
         sane = abs(tempa - 1) < 0.01      # the drag polynomial has changed the semi-major axis by less than 2 %
@@ -1239,6 +1376,10 @@ def gen_history(rng, k):
     pa, pb = base_fields(rng, regime), base_fields(rng, regime if rng.random() < 0.7 else "near-full")
     if rng.random() < 0.25:
         FEATURES[rng.randrange(len(FEATURES))][1](pa, rng, rng.randrange(2))
+    if rng.random() < 0.3:
+        pa["year"], pa["day"] = near_leap_epoch(rng, 10.0)
+        if rng.random() < 0.5:
+            pb["year"], pb["day"] = near_leap_epoch(rng, 10.0)
     a, b = fmt_tle(_fix(pa)), fmt_tle(_fix(pb))
     n_single = len(SOURCES) * len(EDIT_FIELDS)
     if k % (n_single + 60) < n_single:
@@ -1252,7 +1393,8 @@ def gen_history(rng, k):
     day = 86_400_000_000
     offs = [rng.choice([-1, 1]) * rng.randint(day // 8, 12 * day) for _ in range(4)]
     return {"lines": list(a), "lines_b": list(b), "source": SOURCES[(k // len(EDIT_FIELDS)) % len(SOURCES)] if k % (n_single + 60) < n_single else rng.choice(SOURCES),
-            "first_propagation": rng.random() < 0.5, "how": rng.choice(["index", "attr"]), "edits": edits, "offsets_us": offs, "label": rng.choice(LABELS)}
+            "first_propagation": rng.random() < 0.5, "how": rng.choice(["index", "attr"]), "edits": edits, "offsets_us": offs, "label": rng.choice(LABELS),
+            "eop": rng.choice(["leap", "leap", "leap", "const", "zero"])}
 
 
 def run_history(h, on_propagate, on_event=None):
@@ -1312,14 +1454,19 @@ def frame_eq_by_name():
 
 def check_history(out, h, classify=True):
     """oracle: after any history the default propagator returns the reference's state for the lines of the CURRENT values"""
+    with eop(h.get("eop", "const")):
+        _check_history(out, h, classify)
+
+
+def _check_history(out, h, classify=True):
     if classify and h["source"] == "pickle":
         # an unpickled orbit carries Frame objects equal to no registered frame (open finding): run the history on its own, classify its failures
         sub = Outcome()
-        check_history(sub, h, classify=False)
+        _check_history(sub, h, classify=False)
         if sub.failures:
             rep_ = Outcome()
             with frame_eq_by_name():
-                check_history(rep_, h, classify=False)
+                _check_history(rep_, h, classify=False)
             if not rep_.failures:
                 for f in sub.failures:
                     f["family"] = "wrapper-history:unpickled-frame-identity"
@@ -1340,6 +1487,8 @@ def check_history(out, h, classify=True):
             return
         exp = ref_state(sat, target)
         edited = sorted(set(f for fs in h["edits"] for f in fs)) if stage != "first" else []
+        crossed = tai_utc_of(target) - tai_utc_of(target - off * US)
+        out.tally(f"wrapper-history-eop={_eop_mode[0]}/leap-seconds-crossed={'0' if crossed == 0 else 'yes'}")
         out.count(key=(tuple(h["lines"]), h["source"], tuple(edited), stage, off), kind="wrapper-history", source=h["source"], stage=stage, first=h["first_propagation"],
                   edited_numeric=any(f in NUMERIC_FIELDS or f == "back" for f in edited), ref="error" if exp is None else "ok")
         for f in edited or ["(none)"]:
@@ -1385,6 +1534,8 @@ def gen_native_history(rng, k):
         p = base_fields(rng, ["near-drag", "near-full"][(k + j) % 2])
         if rng.random() < 0.2:
             FEATURES[rng.randrange(len(FEATURES))][1](p, rng, rng.randrange(2))
+        if rng.random() < 0.25:
+            p["year"], p["day"] = near_leap_epoch(rng, 8.0)
         orbits.append(list(fmt_tle(_fix(p))))
     day = 86_400_000_000
     ops = []
@@ -1404,7 +1555,7 @@ def gen_native_history(rng, k):
             ops.append(["copy", rng.randrange(n_inst), rng.randrange(n_inst)])
         else:
             ops.append(["prop", rng.randrange(n_inst), rng.choice([-1, 1]) * rng.randint(day // 24, 10 * day)])
-    return {"orbits": orbits, "instances": n_inst, "via": "direct", "ops": ops, "label": rng.choice(LABELS)}
+    return {"orbits": orbits, "instances": n_inst, "via": "direct", "ops": ops, "label": rng.choice(LABELS), "eop": rng.choice(["leap", "leap", "const", "zero"])}
 
 
 def run_native_history(h, on_reply):
@@ -1467,6 +1618,11 @@ def native_with(orbs, o, c, date):
 
 
 def check_native_history(out, h):
+    with eop(h.get("eop", "const")):
+        _check_native_history(out, h)
+
+
+def _check_native_history(out, h):
     inp = {"native_history": h}
     fam = f"native-history:{h['instances']}-instances:{len(h['orbits'])}-orbits:{h['via']}"
 
@@ -1485,7 +1641,9 @@ def check_native_history(out, h):
         l1, l2 = h["orbits"][o]
         sat = reference(l1, l2)
         if sat.method == "n" and sat.isimp == 0:
-            tmin = off / 60e6
+            e0 = info_of_lines(l1, l2)["epoch"]
+            tmin = elapsed_us(e0, e0 + off * US) / 60e6        # elapsed time between the instants (the native model's `date - self.tle.date`)
+            out.tally(f"native-history-eop={_eop_mode[0]}/leap-seconds-crossed={'0' if tmin == off / 60e6 else 'yes'}")
             expn = ref_state_tsince(sat, tmin)
             tempa = 1 - sat.cc1 * tmin - sat.d2 * tmin ** 2 - sat.d3 * tmin ** 3 - sat.d4 * tmin ** 4
             if expn is not None and abs(tempa - 1) < 0.01:
@@ -1554,8 +1712,12 @@ def pinned_cases(out, rng):
         for k, off in enumerate(c["offsets_us"]):
             label = LABELS[k % len(LABELS)]
             offs.append((off, label, LABELS[(k + 2) % len(LABELS)]))
-        check_tle(out, rng, c["line1"], c["line2"], info_of_lines(c["line1"], c["line2"]), offs)
+        for env in EOP_MODES:
+            check_tle(out, rng, c["line1"], c["line2"], info_of_lines(c["line1"], c["line2"]), offs, env=env)
         out.tally("pinned-corpus-tle")
+
+
+ENV_DRAW = ["leap", "leap", "leap", "const", "zero"]
 
 
 def oracle(ctx, widened):
@@ -1573,7 +1735,7 @@ def oracle(ctx, widened):
             for off in gen_directed_offsets(rng, info):
                 label = rng.choice(LABELS)
                 offsets.append((off, label, rng.choice([x for x in LABELS if x != label])))
-            check_tle(out, rng, l1, l2, info, offsets)
+            check_tle(out, rng, l1, l2, info, offsets, env="leap" if "leap-second" in info["feature"] else rng.choice(ENV_DRAW))
         # mutable orbits: every source x every edited input, before / after a first propagation (gen_history)
         for k in range((12 if (widened or ctx.thorough) else 1) * (len(SOURCES) * len(EDIT_FIELDS) + 60)):
             check_history(out, gen_history(rng, k))
@@ -1588,7 +1750,8 @@ def oracle(ctx, widened):
             for _k in range(2):
                 label = rng.choice(LABELS)
                 offsets.append((gen_offset_us(rng), label, rng.choice([x for x in LABELS if x != label])))
-            check_tle(out, rng, l1, l2, info, offsets)
+            check_tle(out, rng, l1, l2, info, offsets, env=rng.choice(ENV_DRAW))
+    out.tally("leap-table-vs-tests/data/pole/tai-utc.dat=" + leap_table_vs_file())
     out.sample({"checks": "wrapper vs python-sgp4 called directly (|v|*50us), timedelta argument, native vs reference theory at the same tsince (1 cm, full near-Earth model only), label independence of both"})
     return out
 
@@ -1599,12 +1762,10 @@ def replay(f):
     out = Outcome()
     i = f["input"]
     if "native_history" in i:
-        with eop():
-            check_native_history(out, i["native_history"])
+        check_native_history(out, i["native_history"])
         return out
     if "history" in i:
-        with eop():
-            check_history(out, i["history"])
+        check_history(out, i["history"])
         return out
     l1, l2 = i["line1"], i["line2"]
     info = info_of_lines(l1, l2)
@@ -1612,8 +1773,7 @@ def replay(f):
         info["name"] = i["name"]
     label = i.get("label", "UTC")
     offs = [(i.get("offset_us", 0), label, o) for o in LABELS if o != label]
-    with eop():
-        check_tle(out, random.Random(0), l1, l2, info, offs)
+    check_tle(out, random.Random(0), l1, l2, info, offs, env=i.get("eop", "const"))
     return out
 
 
@@ -1695,9 +1855,12 @@ def wrapper_cases(ctx, out):
                 res = [float(x) for x in orb.propagate(date)]
             utc_us = (date.change_scale("UTC").datetime - T0) // US
             drift = utc_us - (target - T0) // US
-            reqs.append(f"sgp4fields {utc_us}")
-            meta.append(("stub", rec, res, {"utc": target.isoformat(), "label": label, "lib": "stub"}, None))
-            out.count(key=reqs[-1] + label, kind="fields-stub-lib", label=label, roundtrip_drift_us=drift,
+            off_us = tai_utc_of(target) * 1_000_000          # the harness's own table: the instant is (TAI clock, TAI-UTC of its day)
+            reqs.append(f"sgp4utc {utc_us + off_us} {off_us}" if rng.random() < 0.7 else f"sgp4fields {utc_us}")
+            meta.append(("stub", rec, res, {"utc": target.isoformat(), "label": label, "lib": "stub", "eop": _eop_mode[0], "line1": GEO[0], "line2": GEO[1]}, None))
+            if abs(drift) > 1:
+                out.fail("wrapper-utc-reading", "the UTC reading of a date built from a UTC datetime (through another label) is not that datetime", meta[-1][3], observed=utc_us, expected=(target - T0) // US)
+            out.count(key=reqs[-1] + label, kind="fields-stub-lib", label=label, roundtrip_drift_us=drift, leap_seconds_between_epoch_and_date=tai_utc_of(target) != 37,
                       edge=("midnight" if target.time() == _dt.time(0) else "last-us" if target.microsecond == 999999 and target.second == 59 else "interior"))
         # stream 2: the installed sgp4 package, catalogue-like TLEs, +-30 d
         stream = [(c["line1"], c["line2"], info_of_lines(c["line1"], c["line2"])) for c in pinned()]
@@ -1727,9 +1890,13 @@ def wrapper_cases(ctx, out):
             if use_td:
                 date = orb.date + timedelta(microseconds=off)
             utc_us = (date.change_scale("UTC").datetime - T0) // US
-            reqs.append(f"sgp4fields {utc_us}")
-            meta.append(("real", rec, res, {"line1": l1, "line2": l2, "utc": target.isoformat(), "label": label, "offset_us": off, "timedelta": use_td}, (l1, l2)))
+            off_us = tai_utc_of(target) * 1_000_000
+            reqs.append(f"sgp4utc {utc_us + off_us} {off_us}" if rng.random() < 0.7 else f"sgp4fields {utc_us}")
+            meta.append(("real", rec, res, {"line1": l1, "line2": l2, "utc": target.isoformat(), "label": label, "offset_us": off, "timedelta": use_td, "eop": _eop_mode[0]}, (l1, l2)))
+            if abs(utc_us - (target - T0) // US) > 1:
+                out.fail("wrapper-utc-reading", "the UTC reading of the requested date is not the UTC datetime it was built from", meta[-1][3], observed=utc_us, expected=(target - T0) // US)
             out.count(key=(l1, off, label), nontrivial=off != 0, kind="fields-real-lib", label=label, lines="identical" if rec.lines == [l1, l2] else "differ",
+                      leap_seconds_between_epoch_and_date=tai_utc_of(target) != tai_utc_of(info["epoch"]),
                       tiny_exponent_field=bool(tiny_fields(l1)), deep=info["n"] < 6.4, lib_error=res is None, arg="timedelta" if use_td else "date")
         # malformed request: the model rejects what cannot be a datetime
         reqs.append("sgp4fields -5")
@@ -1750,7 +1917,10 @@ def wrapper_cases(ctx, out):
         if sec != float(f"{sus // 10**6:02d}.{sus % 10**6:06d}"):
             out.fail("wrapper-fields", "Lean's decimal->double conversion of SS.ffffff differs from Python's", inp, observed=float(f"{sus // 10**6:02d}.{sus % 10**6:06d}"), expected=sec)
         if len(rec.calls) != 1 or tuple(rec.calls[0]) != model_args or not all(type(a) is float for a in rec.calls[0]):
-            out.fail("wrapper-fields", "arguments handed to satrec.propagate differ from the model's UTC tuple", inp, observed=[list(c) for c in rec.calls], expected=list(model_args))
+            # off by more than the library's time resolution: the state is not the reference's for that instant (the property itself, not only the model)
+            far = len(rec.calls) != 1 or len(rec.calls[0]) != 6 or tuple(rec.calls[0][:5]) != model_args[:5] or abs(rec.calls[0][5] - sec) > 50e-6
+            out.fail("wrapper-fields", "arguments handed to satrec.propagate differ from the model's UTC tuple", inp, observed=[list(c) for c in rec.calls], expected=list(model_args),
+                     violates_property=bool(far))
             continue
         if not rec.const_is_wgs72:
             out.fail("wrapper-gravity", "twoline2rv is not called with the WGS-72 constants", inp, observed="other", expected="wgs72")
